@@ -51,10 +51,10 @@ func inPlaceDisciplineRule(P *Program, R *Report, rule string, types ...string) 
 				return
 			}
 			m := bigMethod(c)
-			if m == "" || len(c.Call.Args) == 0 {
+			if m == "" || len(callArgs(c)) == 0 {
 				return
 			}
-			for k, a := range c.Call.Args {
+			for k, a := range callArgs(c) {
 				if !isBigIntPtr(a.Type()) {
 					continue
 				}
@@ -116,8 +116,8 @@ func sharedConstantsRule(P *Program, R *Report, rule string) {
 			case *ssa.ChangeType:
 				return walk(y.X)
 			case *ssa.Call:
-				if m := bigMethod(y); m != "" && bigMutators[m] && len(y.Call.Args) > 0 {
-					return walk(y.Call.Args[0])
+				if m := bigMethod(y); m != "" && bigMutators[m] && len(callArgs(y)) > 0 {
+					return walk(callArgs(y)[0])
 				}
 			}
 			return "", false
@@ -134,7 +134,7 @@ func sharedConstantsRule(P *Program, R *Report, rule string) {
 			switch x := i.(type) {
 			case *ssa.Call:
 				m := bigMethod(x)
-				for k, a := range x.Call.Args {
+				for k, a := range callArgs(x) {
 					if g, ok := isGlobalBig(a); ok {
 						nUses++
 						if m != "" && k == 0 && bigMutators[m] {
